@@ -132,7 +132,7 @@ pub fn def() -> PropertyDef {
 			"SHA-2 from OpenSSL and OpenSSL's SubjectPublicKeyInfo encoding of the fixture keys are the reference for key identifiers and SPKI bytes",
 		],
 		subs: vec![
-			prop_sub("random", 24_000, 1_500_000, || cert_case(CertGenOpts::FULL, false), check_case),
+			prop_sub("random", 96_000, 1_500_000, || cert_case(CertGenOpts::FULL, false), check_case),
 			sweep_sub("ku-sweep", |_| ku_sweep_cases(), check_case),
 			sweep_sub("pathlen-sweep", |_| pathlen_sweep_cases(), check_case),
 			sweep_sub("prefix-sweep", |_| prefix_sweep_cases(), check_case),
